@@ -312,6 +312,39 @@ def run(out: core.Outcome) -> None:
                             out.violation({"scenario": "from_storage", "config": name, "variant": variant, "schedule": list(sched),
                                            "num_processes": w, "progress": progress, "refine": refine, "fails": fails})
                 _FRAMEKEYS = None
+        # ---------------- (C) long storages: many more frames than workers (and than any bounded submission window);
+        # the completion order is left to the pool, with frames of very different cost so that it is NOT the
+        # submission order
+        _CENTRES = None
+        _FRAMEKEYS = None
+        _NONE = set()
+        from pde import CartesianGrid
+        from droplets import DiffuseDroplet, Emulsion
+        for nlong, procs in ((7, 2), (11, 3), (2 * core.NCPU + 5, "auto")) if out.tier == "quick" else \
+                ((7, 2), (9, 2), (11, 3), (13, 4), (2 * core.NCPU + 5, "auto"), (4 * core.NCPU + 1, "auto")):
+            lgrid = CartesianGrid([[0, 24], [0, 12]], [48, 24], periodic=[True, False])
+            lst = MemoryStorage()
+            lframes = []
+            for k in range(nlong):
+                ds = [DiffuseDroplet(np.array([6.0 + 0.29 * k, 6.0]), 2.5 + 0.05 * k, 1.0)]
+                if k % 3 == 1:      # costly frames: two more droplets to refine
+                    ds += [DiffuseDroplet(np.array([15.0, 6.2]), 3.0, 1.1), DiffuseDroplet(np.array([21.0 - 0.1 * k, 5.8]), 2.0, 0.9)]
+                lframes.append(Emulsion(ds).get_phasefield(lgrid))
+            lst.start_writing(lframes[0])
+            for k, f in enumerate(lframes):
+                lst.append(f, 0.25 * k)
+            ser = EmulsionTimeCourse.from_storage(lst, num_processes=1, refine=True, progress=False)
+            par = EmulsionTimeCourse.from_storage(lst, num_processes=procs, refine=True, progress=False)
+            out.evaluations += 1
+            out.nontrivial_count += 1
+            fails = []
+            if list(par.times) != list(ser.times) or list(par.times) != list(lst.times):
+                fails.append("times-differ")
+            if len(par) != len(ser) or not all(_same(a, b) for a, b in zip(par.emulsions, ser.emulsions)):
+                fails.append("frames-differ-from-serial")
+            if fails:
+                out.violation({"scenario": "from_storage-long", "frames": nlong, "num_processes": procs, "fails": fails})
+        out.parts["long_storages"] = {"frames_vs_processes": "7/2, 11/3, (2 cpu + 5)/auto"}
     # ---- code -> spec: validate the recorded schedules
     for key, trs in traces.items():
         n, w, none = key
